@@ -117,7 +117,27 @@ def ev_const(case, rec):
     rec.sample({'published_ellipsoids': cfg.PUBLISHED_ELL, 'published_projections': cfg.PUBLISHED_PRJ})
 
 
-SUBCHECKS = [Sub('constants', gen_const, ev_const, chunk=1, floor=1, parallel=False), Sub('forward', gen, ev_row, chunk=24, floor=1000, envs=16)]
+# --- two threads projecting DIFFERENT positions on DIFFERENT ellipsoids / projections at the same time ----------
+from gpmc import threads as _thr
+import numpy as _tnp
+import geodepy.constants as _tgc
+import geodepy.convert as _tgv
+import geodepy.geodesy as _tgg
+import geodepy.angles as _tga
+T_CALLS = {
+    'utm_grs80': lambda: (lambda: _tgv.geo2grid(-33.5, 151.2)),
+    'isg_ans': lambda: (lambda: _tgv.geo2grid(-33.5, 151.2, 0, _tgc.ans, _tgc.isg)),
+    'utm_intl_north': lambda: (lambda: _tgv.geo2grid(45.5, -73.6, 18, _tgc.intl24)),
+    'utm_obj': lambda: (lambda: _tgv.geo2grid(_tga.DMSAngle(-23, 40, 12.5), _tga.DMSAngle(133, 53, 6.0))),
+    'user_prj': lambda: (lambda p=_tgc.Projection(200000, 4000000, 0.9999, 4, -178): _tgv.geo2grid(12.25, 45.5, 0, _tgc.wgs84, p)),
+    'm1': lambda: (lambda: _tgv.geo2grid(-1, 151.2)),
+    'm2': lambda: (lambda: _tgv.geo2grid(-2, 151.2)),
+}
+_tg, _te = _thr.make(T_CALLS, ['geodepy/convert.py'], 'convert:geo2grid:threads', quick=['utm_grs80', 'isg_ans', 'utm_intl_north', 'user_prj'],
+                     triple=('utm_grs80', 'isg_ans', 'user_prj'), files_thorough=['geodepy/angles.py', 'geodepy/constants.py'])
+
+
+SUBCHECKS = [Sub('constants', gen_const, ev_const, chunk=1, floor=1, parallel=False), Sub('forward', gen, ev_row, chunk=24, floor=1000, envs=16), Sub('threads', _tg, _te, chunk=1, floor=3, poison=False)]
 
 
 def bounds(tier, seed):
